@@ -49,7 +49,10 @@ class Rule:
                     doc = {"description": doc, "examples": []}
 
             elif isinstance(doc.get("description"), str):
-                doc["description"] = [doc["description"]]
+                doc = {**doc, "description": [doc["description"]]}
+
+            else:
+                doc = dict(doc)  # normalised below; leave the caller's mapping alone
 
             if "description" not in doc:
                 doc["description"] = []
@@ -57,11 +60,15 @@ class Rule:
             if "examples" not in doc:
                 doc["examples"] = []
 
-            # strip final new lines:
-            for idx, desc_i in enumerate(doc["description"]):
-                doc["description"][idx] = desc_i.strip()
-            for idx, ex_i in enumerate(doc["examples"]):
-                doc["examples"][idx] = ex_i.strip()
+            # strip final new lines (into new lists):
+            try:
+                doc["description"] = [i.strip() for i in doc["description"]]
+                doc["examples"] = [i.strip() for i in doc["examples"]]
+            except AttributeError:
+                raise MalformedRuleSpec(
+                    f"Rule doc description and examples must be strings, but found: "
+                    f"{doc!r}."
+                )
 
         cast = spec.get("cast")
         for cast_from in list((cast or {}).keys()):
